@@ -439,6 +439,42 @@ def m_map_index(I, state, frame, bi, t, args, span):
     return out
 
 
+@model("std::result::Result::<T, E>::map_err", "std::result::Result::<T, E>::or_else")
+def m_res_map_err(I, state, frame, bi, t, args, span):
+    """the Ok side passes through unchanged, the Err payload is converted (its new value is not tracked)"""
+    o = args[0]
+    if o[0] == "adt" and o[1] == RESULT:
+        vs = adt_variants(o)
+        out = {}
+        if 0 in vs:
+            out[0] = vs[0]
+        if 1 in vs:
+            out[1] = (TOP,)
+        return [(adt(RESULT, out), state)]
+    return [(adt(RESULT, {0: (TOP,), 1: (TOP,)}), state)]
+
+
+@model("std::result::Result::<T, E>::map", "std::result::Result::<T, E>::and_then")
+def m_res_map(I, state, frame, bi, t, args, span):
+    """the Err side passes through unchanged; the Ok payload is what the closure makes of it"""
+    from mir import callee_of
+    o = args[0]
+    is_and_then = callee_of(t)[0].endswith("::and_then")
+    if o[0] == "adt" and o[1] == RESULT:
+        vs = adt_variants(o)
+        res = []
+        if 1 in vs:
+            res.append((adt(RESULT, {1: vs[1]}), state.copy()))
+        if 0 in vs:
+            for (rv, s2) in call_closure(I, state.copy(), frame, bi, args[1], [vs[0][0]], span):
+                if is_and_then:
+                    res.append((rv if (rv[0] == "adt" and rv[1] == RESULT) else adt(RESULT, {0: (TOP,), 1: (TOP,)}), s2))
+                else:
+                    res.append((adt(RESULT, {0: (rv,)}), s2))
+        return res
+    return [(adt(RESULT, {0: (TOP,), 1: (TOP,)}), state)]
+
+
 def variant_test(I, state, args, true_variants, false_variants):
     a = args[0]
     if a[0] == "ref":
@@ -1106,6 +1142,8 @@ def index_common(I, state, frame, bi, t, args, span):
     dty = frame.body.locals[t["dest"]["l"]]["s"] if not t["dest"]["p"] else ""
     if dty in ("&mut bool", "&bool") and i[0] == "key" and i[1] is not None and a[0] == "ref" and a[1][0] == "local":
         # a local table of flags indexed by job (`seen[job]`): a store through the returned reference is a per-job mark
+        I.rec.put("marktest", I.sitekey(frame, bi, -1),
+                  dict(fn=frame.body.name, bb=bi, span=span, key=(i[1], i[2]), stack=frame.stack, fid=frame.fid))
         return [(ref(("marktable", a[1][1:], i[1]), ()), state)]
     v = deref(I, state, a)
     if v[0] == "coll":
